@@ -299,14 +299,18 @@ def check_property(prop, tier):
 
     extra = {}
     if tier == "thorough":
-        try:
-            from . import thorough
+        from . import thorough
 
-            extra = thorough.run(prop, units, results, seed)
-            for x in extra.get("undecided", []):
-                undecided.append(x)
-        except ImportError:
-            extra = {"note": "thorough tier not built yet"}
+        extra = thorough.run(prop, units, results, seed)
+        for x in extra.get("undecided", []):
+            undecided.append(x)
+        for n, dis in enumerate(extra.get("violations", [])[:10]):
+            rp = os.path.join(REPLAYS, "%s_differential_%s_%d.json" % (prop, dis["builtin"], n))
+            with open(rp, "w") as fh:
+                json.dump({"property": prop, "obligation": "boundary_differential::" + dis["builtin"], "class": "functional",
+                           "verifier_message": "bounded differential on the real code disagrees with the reference model (not a proof obligation)",
+                           "failing_expression": None, "counterexample": {"found": True, "input": dis}}, fh, indent=1)
+            lines.append("VIOLATION property=%s replay=%s" % (prop, rp))
 
     meta = load_json(os.path.join(ROOT, "contracts", "meta.json"), {})
     ev = {
